@@ -332,6 +332,14 @@ def check_family(pid, tier, table, fam, module, cfg, violation):
         out = fresh_dir("tr_%s_%s" % (pid, mode))
         stats.update(run_harness(binp, [fam, mode, "--seed", str(seed()), "--tier", tier, "--out", out, "--shards", str(TV_PAR)]))
         files += sorted(glob.glob(os.path.join(out, "*.ndjson")))
+    if cfgp.get("debug_too"):
+        # the same drivers (quick budget) in a build WITH debug assertions and overflow checks: a
+        # primitive that panics there on an input of its domain does not "equal its definition"
+        bind = build_harness(profile="debug")
+        for mode in cfgp["modes"]:
+            out = fresh_dir("tr_%s_%s_debug" % (pid, mode))
+            run_harness(bind, [fam, mode, "--seed", str(seed()), "--tier", "quick", "--out", out, "--shards", str(TV_PAR)])
+            files += sorted(glob.glob(os.path.join(out, "*.ndjson")))
     for name, mod, c in cfgp["mc"][tier]:
         v.add_mc(run_mc(name, mod, c))
     gen_stats = None
@@ -516,7 +524,7 @@ def replay_c14(pid, path):
 
 
 HASH_TBL = {
-    "C19": {"modes": ["all"], "mc": {"quick": [("hashes_scaled", "MCHashes.tla", "MCHashes_scaled.cfg"), ("hashes_real", "MCHashes.tla", "MCHashes_real.cfg")],
+    "C19": {"modes": ["all"], "debug_too": True, "mc": {"quick": [("hashes_scaled", "MCHashes.tla", "MCHashes_scaled.cfg"), ("hashes_real", "MCHashes.tla", "MCHashes_real.cfg")],
                                      "thorough": [("hashes_scaled", "MCHashes.tla", "MCHashes_scaled.cfg"), ("hashes_real", "MCHashes.tla", "MCHashes_real.cfg")]},
             "rule": "byte strings of the C01 classes (<= 4 KiB): RollingHash::value() and PartialFNVHash::value() after EVERY prefix against RollDef(last 7 bytes) and the low six bits of a 32-bit FNV-1 state carried by the spec; slice / iterator / single-byte / += / mixed forms on random splits; the complete 64 x 256 FNV transition table (all 64 states reached through the public API). non-trivial = bytes stepped",
             "nontrivial": ("hashes", "bytes")},
@@ -545,7 +553,8 @@ def replay_hashes(pid, path):
         for e in obj["events"]:
             fh.write(json.dumps(e) + "\n")
     run_harness(binp, ["replay", "hashes", inp, "--out", out])
-    files = [x for x in sorted(glob.glob(os.path.join(out, "*.ndjson"))) if not x.endswith("in.ndjson")]
+    run_harness(build_harness(profile="debug"), ["replay", "hashes", inp, "--out", os.path.join(out, "debug")])
+    files = [x for x in sorted(glob.glob(os.path.join(out, "**", "*.ndjson"), recursive=True)) if not x.endswith("in.ndjson")]
     res = run_tv("TraceHash.tla", "TraceHash.cfg", files)
     cache = {}
     for r in res:
@@ -565,6 +574,11 @@ for _p in OBJ:
 
 
 def replay(pid, path):
+    try:
+        if json.load(open(path)).get("family") == "uncaught-panic":
+            return CHECKS[pid](pid, "quick")       # the scenario is the driver run itself
+    except (OSError, ValueError):
+        pass
     return REPLAY[pid](pid, path)
 
 
